@@ -99,6 +99,35 @@ std::vector<double> make_points(const Case& c, int& N, bool& explicit_box)
         for (auto& v : P)
             v = (g.uni() < 0.5 ? -1 : 1) * std::pow(10.0, g.uni(-dec, dec));
     }
+    else if (kind == "farline")
+    {
+        // axis-parallel line whose constant coordinate is huge: cells run out of resolution along one axis only
+        bool vertical = g.uni() < 0.5;
+        double cst = c.d("far", 1e12) * (g.uni() < 0.5 ? -1 : 1);
+        for (int i = 0; i < N; ++i)
+        {
+            double t = g.uni(-5, 5);
+            P[2 * i] = vertical ? cst : t;
+            P[2 * i + 1] = vertical ? t : cst;
+        }
+    }
+    else if (kind == "thin")
+    {
+        // a cluster that is a few ulps wide along x and far narrower along y, inside an ordinary cloud
+        for (int i = 0; i < N; ++i)
+        {
+            if (i < N / 2)
+            {
+                P[2 * i] = 1.0 + (double)g.below(64) * 2.220446049250313e-16;
+                P[2 * i + 1] = (double)g.below(1000) * 1e-18;
+            }
+            else
+            {
+                P[2 * i] = g.gauss();
+                P[2 * i + 1] = g.gauss();
+            }
+        }
+    }
     else if (kind == "nearpairs")
     {
         // pairs of distinct points at tiny separations
@@ -468,6 +497,20 @@ double sqd(const std::vector<double>& X, int D, int a, int b)
 }
 
 // checks that row values p_m (m in cols) are Gaussian in the true squared distance with the right entropy
+// The entropy of a Gaussian row decreases from log(#candidates) to log(m) as beta grows, m being the number of candidates at
+// exactly the minimal distance: the target log(perplexity) is attainable iff m < perplexity < #candidates.
+bool attainable_row(const std::vector<double>& X, int D, int n, const std::vector<int>& cols, double perplexity)
+{
+    double dmin = 1e300;
+    for (int m : cols)
+        dmin = std::min(dmin, sqd(X, D, n, m));
+    int mult = 0;
+    for (int m : cols)
+        if (sqd(X, D, n, m) <= dmin * (1 + 1e-12) + 1e-300)
+            ++mult;
+    return perplexity > mult * (1 + 1e-6) + 1e-9 && perplexity < (double)cols.size() * (1 - 1e-6);
+}
+
 bool check_row(const std::vector<double>& X, int D, int n, const std::vector<int>& cols, const std::vector<double>& p, double perplexity,
                Result& r, const char* mode)
 {
@@ -479,6 +522,12 @@ bool check_row(const std::vector<double>& X, int D, int n, const std::vector<int
         r.violation(sf("tsne:%s:row-not-normalised", mode), sf("row %d sums to %.12g", n, sum));
         return false;
     }
+    if (!attainable_row(X, D, n, cols, perplexity))
+    {
+        r.addnum(sf("%s_rows_with_unattainable_perplexity", mode), 1);
+        return true; // normalised, nothing else can be demanded
+    }
+    r.addnum(sf("%s_rows_judged", mode), 1);
     for (double v : p)
         if (v > 0)
             H -= v * std::log(v);
